@@ -35,7 +35,9 @@ func (fr *Frame) execCall(ins ssa.Instruction, cc *ssa.CallCommon, c *blockCtx) 
 	sig := cc.Signature()
 	if cc.IsInvoke() {
 		recv := fr.val(cc.Value)
-		fr.safetyAt("nil", c.reach, not(eq(recv.S, "nilIface")), ins)
+		if recv.Sort == SIface {
+			fr.safetyAt("nil", c.reach, not(eq(recv.S, "nilIface")), ins)
+		}
 		key, fc := g.W.ifaceContract(cc.Value.Type(), cc.Method)
 		// a contract on the struct field holding the interface value takes precedence: "(*pkg.T).Field.Method"
 		if fk := fieldOf(cc.Value); fk != "" {
@@ -58,6 +60,16 @@ func (fr *Frame) execCall(ins ssa.Instruction, cc *ssa.CallCommon, c *blockCtx) 
 	case *ssa.Builtin:
 		return fr.execBuiltin(v, cc, args, c, ins)
 	case *ssa.Function:
+		if m, obj := fr.monitorOf(v, cc); m != nil {
+			if v.Name() == "Unlock" {
+				fr.monitorCheck(m, obj, c, "unlock")
+			}
+			res := fr.callStatic(v, nil, args, sig, c, ins)
+			if v.Name() == "Lock" {
+				fr.monitorEnter(m, obj, c)
+			}
+			return res
+		}
 		// a contract on the struct field holding the receiver takes precedence: "(*pkg.T).Field.Method"
 		if v.Signature.Recv() != nil && len(cc.Args) > 0 {
 			if fk := fieldOf(cc.Args[0]); fk != "" {
@@ -490,6 +502,14 @@ func (fr *Frame) havocLoc(env *Env, loc Expr, st *State) {
 				}
 				g.havocCell(st, p.S, pt.Elem())
 				return
+			case "$allof":
+				name := l.Args[0].(*EIdent).Name
+				key, es, _ := g.ghostField(name)
+				old := g.heap(st, key, es)
+				nh := g.sc.Fresh(key, old.Sort)
+				st.heaps[key] = nh
+				g.logWholeWrite(key, es, "")
+				return
 			case "$mapof":
 				m, ty := pre.tr(l.Args[0])
 				mt := ty.G.Underlying().(*types.Map)
@@ -899,6 +919,9 @@ func (fr *Frame) execDeferredCall(d *ssa.Defer, c *blockCtx) {
 	case *ssa.Builtin:
 		fr.execBuiltin(v, cc, args, c, d)
 	case *ssa.Function:
+		if m, obj := fr.monitorOf(v, cc); m != nil && v.Name() == "Unlock" {
+			fr.monitorCheck(m, obj, c, "unlock")
+		}
 		fr.callStatic(v, nil, args, sig, c, d)
 	case *ssa.MakeClosure:
 		cl := fr.closureOf[v]
@@ -987,4 +1010,78 @@ func fieldOf(v ssa.Value) string {
 		return ""
 	}
 	return "(*" + n.Obj().Pkg().Path() + "." + n.Obj().Name() + ")." + st.Field(fa.Field).Name()
+}
+
+// monitorOf: if the call is Lock/Unlock on a mutex field with a monitor declaration, return it and the owner object.
+func (fr *Frame) monitorOf(fn *ssa.Function, cc *ssa.CallCommon) (*FuncContract, Term) {
+	g := fr.g
+	if len(g.W.monitors) == 0 || len(cc.Args) == 0 || (fn.Name() != "Lock" && fn.Name() != "Unlock") {
+		return nil, Term{}
+	}
+	if fn.Pkg == nil || fn.Pkg.Pkg.Path() != "sync" {
+		return nil, Term{}
+	}
+	fa, ok := cc.Args[0].(*ssa.FieldAddr)
+	if !ok {
+		return nil, Term{}
+	}
+	pt, ok := fa.X.Type().Underlying().(*types.Pointer)
+	if !ok {
+		return nil, Term{}
+	}
+	n, ok := types.Unalias(pt.Elem()).(*types.Named)
+	if !ok || n.Obj().Pkg() == nil {
+		return nil, Term{}
+	}
+	st, ok := n.Underlying().(*types.Struct)
+	if !ok {
+		return nil, Term{}
+	}
+	key := "(*" + n.Obj().Pkg().Path() + "." + n.Obj().Name() + ")." + st.Field(fa.Field).Name()
+	m := g.W.monitors[key]
+	if m == nil {
+		return nil, Term{}
+	}
+	return m, Term{fr.val(fa.X).S, SRef}
+}
+
+func (fr *Frame) monitorEnv(m *FuncContract, obj Term, st *State) *Env {
+	env := &Env{g: fr.g, pkg: m.Pkg, vars: map[string]Binding{}, st: st, old: st}
+	name := "c"
+	if len(m.ParamNames) > 0 {
+		name = m.ParamNames[0]
+	}
+	ty := fr.g.W.resolveType(m.Pkg, m.Recv, fr.g)
+	env.vars[name] = Binding{obj, ty}
+	return env
+}
+
+// monitorEnter: after Lock the guarded state is whatever the other lock holders left: havoc it, assume the invariant.
+func (fr *Frame) monitorEnter(m *FuncContract, obj Term, c *blockCtx) {
+	g := fr.g
+	env := fr.monitorEnv(m, obj, c.st)
+	env.old = c.st.clone()
+	for _, loc := range m.Modifies {
+		fr.havocLoc(env, loc, c.st)
+	}
+	env.st = c.st
+	for _, inv := range m.Ensures {
+		g.sc.Assume(implies(c.reach, env.trBool(inv.E)))
+	}
+	g.usedAssumed["monitor: lock invariant of "+m.Recv+"."+m.Name+" assumed at Lock"] = true
+}
+
+// monitorCheck: the invariant must hold whenever the lock is released.
+func (fr *Frame) monitorCheck(m *FuncContract, obj Term, c *blockCtx, phase string) {
+	g := fr.g
+	env := fr.monitorEnv(m, obj, c.st)
+	fr.callOrd["monitor:"+m.Name]++
+	ord := fr.callOrd["monitor:"+m.Name] - 1
+	for i, inv := range m.Ensures {
+		label := inv.Label
+		if label == "" {
+			label = fmt.Sprint(i)
+		}
+		g.oblige("monitor", fr.oname(fmt.Sprintf("monitor/%s@%s#%d", m.Name, phase, ord), label), c.reach, env.trBool(inv.E), inv.Src, false)
+	}
 }
